@@ -28,6 +28,8 @@ def SI(dim='n'):
         return SV(c.path.new_dim(dim, 1))
     nch.recipe = ('dim', dim)
     f['_number_of_channels'] = nch
+    f['_channel_number'] = vec(dim, 'int')
+    f['_df'] = mat(dim)
     return obj('SpectralInformation', **f)
 
 
